@@ -276,7 +276,7 @@ impl<Error: Send> StreamingSoundData<Error> {
 	#[must_use]
 	pub fn num_frames(&self) -> usize {
 		if let Some((start, end)) = self.slice {
-			end - start
+			end.saturating_sub(start)
 		} else {
 			self.decoder.num_frames()
 		}
